@@ -318,7 +318,8 @@ fn base_image(ctx: &Ctx) -> Result<(Vec<u8>, Option<Vec<u8>>, Vec<(usize, usize)
 
 /// Everything that decodes bytes of a loaded document (the entry points beyond the loader).
 fn exercise_decoders(d: &lopdf::Document) {
-    let mut sample_text: Vec<u8> = vec![0, 1, 0, 4, 1, 0, 1, 1, 0xFF, 0xFF, 0x41];
+    // mapped codes, codes no CMap entry covers followed by more text, odd lengths
+    let mut sample_text: Vec<u8> = vec![0, 1, 0, 4, 1, 0, 1, 1, 0xFF, 0xFF, 0x41, 0xFE, 0xFD, 0xFC, 0xFB, 0x01, 0x00, 0x00, 0x01, 0x7F, 0x80, 0x90, 0xA0, 0xB0, 0x00, 0x04, 0x09];
     for (_, o) in d.objects.iter() {
         match o {
             lopdf::Object::Stream(s) => {
@@ -501,7 +502,7 @@ pub fn c04_faulted(ctx: &Ctx, out: &mut RunOut) -> Result<(), Violation> {
         guarded("get_font_encoding + decode_text", || {
             on_small_stack(ctx, || {
                 if let Ok(enc) = font.get_font_encoding(&d) {
-                    let _ = lopdf::Document::decode_text(&enc, &[0, 1, 1, 0, 1, 2, 0xFF]);
+                    let _ = lopdf::Document::decode_text(&enc, &[0, 1, 1, 0, 1, 2, 0xFF, 0xFE, 0xFD, 0xFC, 0xFB, 0xFA, 0, 1, 0x80, 0x81, 0x82, 0x83, 0x84]);
                 }
             })
         })?;
